@@ -7,24 +7,24 @@ BASE_NOTE = ("Trusted: Lean 4.33 kernel; axioms limited to propext/Classical.cho
              "hand-written and tied to /repo by the extracted source facts (re-proved each run) and by the correspondence run "
              "(model driver vs real code on the same generated inputs). ")
 CLAIMED = {
- "C06": dict(tech="Lean 4 theorems (encode/decode round trip, exact consumption, size limits) over a model of protocol.py + extracted header facts + byte-level correspondence",
+ "C06": dict(tech="Lean 4 theorems (encode/decode round trip, exact consumption, size limits, accepted => tiled) over a model of protocol.py; ReceivingMessage.add_payload and the three size/compression conditions are TRANSLATED from the source on every run (py2ir.py -> PyIR deep embedding) and proved equal to the model for all inputs (addPayload_translated, C06_gen_conditions); extracted/probed header facts; byte-level correspondence incl. a decoder watchdog",
              text="Proof: for every message, payload, annotation list, compression setting, MAX_MESSAGE_SIZE and trailing stream the model decoder returns exactly what the model encoder was given and consumes exactly its bytes; tie to the code by differential runs of SendingMessage/ReceivingMessage/recv_stub against the model driver on generated and mutated byte strings.",
-             note="zlib is a parameter with the round-trip law (validated differentially); connection.recv is 'exactly n bytes or raise' (that contract is C17)."),
+             note="zlib is a parameter with the round-trip law (validated differentially); connection.recv is 'exactly n bytes or raise' (that contract is C17); the PyIR interpreter + py2ir transcription are the assumed semantics of the Python fragment add_payload is written in (run next to the model by the driver on every decode line)."),
  "C08": dict(tech="Lean 4: invariant by induction over arbitrary item sequences / event interleavings for a model of _handshake, handleRequest and both transports' connection life cycle; extracted accept-lists and guard shapes; history correspondence on the real transports over in-memory sockets",
              text="Proof: for every sequence of items on a connection and every interleaving over any number of connections, a method is executed only after the first reply on that connection was CONNECTOK; the handshake accepts exactly a well-formed CONNECT with a known serializer for a registered object accepted by the validator, every other first item gets CONNECTFAIL (or nothing iff the peer is gone) and the connection is closed, after which nothing pipelined has any effect. Tie: generated histories rendered with the real encoder through the real thread-pool and multiplex servers vs the model driver (replies, executions, closure).",
              note="byte level delegated to C06/C17 (items = outcomes of recv_stub); serializer dump failures are parameters supplied per history; pre-connected socket pairs exempt by the property."),
  "C12": dict(tech="Lean 4: ownership invariant over an explicit heap of response-annotation dict objects (thread-local current dict per worker, oneway threads sharing the spawning request's dict and writing at any later point), by induction over arbitrary event sequences; extracted reset points; history correspondence on both real transports incl. single-worker reuse and gated oneway writes",
              text="Proof: in every history of requests from any clients on any workers, with oneway writes interleaved anywhere, every response annotation sent with a reply, ping or handshake answer was written by the method of that same request (answers no method produced carry none), and every context snapshot a method takes equals its own request's data, also in the oneway thread. Tie: histories on the real multiplex server, thread-pool server and single-worker pool with methods that assign/mutate annotations and return/raise, gated oneway writes; all reply annotations and context snapshots compared with the model and checked directly.",
              note="threading.local isolation assumed; oneway write points on the real code are the release points the harness picks (the model covers all); batch and stream replies are not distinguished from normal replies in this model."),
- "C13": dict(tech="Lean 4: accounting invariant (hook calls, close calls, resource closes, session instances, slot) by induction over item sequences and event interleavings on the server model; extracted finally/inactive-branch shapes; history correspondence incl. a cut at every byte offset on both real transports",
+ "C13": dict(tech="Lean 4: accounting invariant (hook calls, close calls, resource closes, session instances, slot) by induction over item sequences and event interleavings on the server model; SocketConnection.close TRANSLATED from the source on every run (py2ir.py -> PyIR) and proved to close every tracked resource exactly once whatever raises, to never raise and to be idempotent (close_translated, close_twice); extracted cleanup-call order (helper methods followed); history correspondence incl. a cut at every byte offset on both real transports + the real close() vs the interpreter",
              text="Proof: for every way and point a connection can end, when it is closed the disconnect hook ran exactly once iff it had been accepted, the connection was closed once, exactly the resources tracked at that moment were closed, each once, session instances dropped, slot released; before that nothing is cleaned up; other connections' records are untouched (frame). Tie: histories with track/untrack/session calls and every ending, plus one request cut at every byte offset, on the real thread-pool and multiplex servers vs the model (hook count, per-resource close count, pool/selector accounting).",
              note="GC timing of weakly tracked resources and daemon shutdown with open connections are outside the model; byte level delegated to C06/C17."),
- "C15": dict(tech="Lean 4: generic lock-atomicity theorem over a micro-step interleaving semantics (all schedules, any number of threads) instantiated with the name-server operations; premise = lock shape extracted from nameserver.py; tie by sequential correspondence + deterministic-scheduler exploration of the real code checked for linearizability",
-             text="Proof: every interleaving of any number of concurrent name-server calls equals the sequential execution of the completed calls in lock-release order (Lock.atomic), hence exactly one of n concurrent safe registrations succeeds and concurrent removals of one name report 1,0,0,... and never fail; the premise that every storage access is inside `with self.lock` is re-proved from the extracted lock shape on every run. Tie: sequential histories real vs model; real NameServer with instrumented lock/storage run under all schedules up to a preemption bound, outcomes checked for linearizability.",
+ "C15": dict(tech="Lean 4: generic lock-atomicity theorem over a micro-step interleaving semantics (all schedules, any number of threads) instantiated with the name-server operations; premise discharged from the source: a lock skeleton of every public NameServer method is extracted on every run and a decidable check with a soundness theorem (every storage access of every possible execution happens under the lock); tie by sequential correspondence + deterministic-scheduler exploration of the real code (with a sequential epilogue) checked for linearizability",
+             text="Proof: every interleaving of any number of concurrent name-server calls equals the sequential execution of the completed calls in lock-release order (Lock.atomic), hence exactly one of n concurrent safe registrations succeeds and concurrent removals of one name report 1,0,0,... and never fail; the premise that every storage access happens under `self.lock` is re-proved from the extracted lock skeletons on every run (allLocked_sound). Tie: sequential histories real vs model; real NameServer with instrumented lock/storage run under all schedules up to a preemption bound, outcomes checked for linearizability.",
              note="GIL-atomicity of single dict operations assumed; real preemption replaced by the model's 'any schedule' and, on the real code, by enumerated/random schedules at storage-access granularity; sqlite back-end concurrency (its own connection per call) is not modelled."),
- "C17": dict(tech="Lean 4 theorems by induction over arbitrary socket-event scripts for a model of receive_data/send_data + scripted-socket correspondence",
+ "C17": dict(tech="Lean 4 theorems by induction over arbitrary socket-event scripts for a model of receive_data/send_data; both functions are TRANSLATED from the source on every run (py2ir.py -> PyIR deep embedding, exception class hierarchy from the live classes) and proved equal to the model for every size, stream, script and socket mode (recv_translated, send_translated), so the C17 theorems are restated about the source as written; scripted-socket correspondence with error-clause oracles",
              text="Proof: for every request size, stream and script of socket behaviours (no bound) the model returns exactly the next n bytes or fails with the bytes received so far; sends deliver a prefix, all of it on success. Tie: real receive_data/send_data on a scripted socket vs the model driver, event by event.",
-             note="The OS is replaced by the script alphabet (deliver k / retryable errno / fatal errno / timeout / eof)."),
+             note="The OS is replaced by the script alphabet (deliver k / retryable errno / fatal errno / timeout / eof); the PyIR interpreter + py2ir transcription are the assumed semantics of the Python fragment (run next to the model by the driver on every line and compared with the real functions)."),
 }
 ALL = ["C%02d" % i for i in range(1, 21)]
 import glob
